@@ -892,11 +892,12 @@ impl CodegenContext {
                                     offset += 256;
                                 }
                                 offset as i64
-                            } else if target_pc == 0 {
-                                // We probably couldn't determine the target_pc, so let's ignore the error for now.
-                                // We'll just return a dummy offset. This instruction will be re-emitted in a next pass anyway.
-                                0
                             } else {
+                                // Emit a placeholder of the right size, so the addresses of the labels that follow
+                                // do not depend on whether this branch could (already) be resolved in this pass
+                                if let Ok(bytes) = get_opcode_bytes(i.mnemonic.data, am, suffix, 0) {
+                                    self.emit(full_span, &bytes)?;
+                                }
                                 return Err(Diagnostic::error()
                                     .with_message(format!(
                                         "branch too far trying to reach ${:4X} from ${:4X}",
